@@ -14,6 +14,7 @@ mod duts;
 mod eos;
 mod graphs;
 mod hdlc;
+mod kernels;
 mod runners;
 mod spsc;
 mod rec;
@@ -79,6 +80,7 @@ fn main() {
         "c08" => blockprops::main(&opts, blockprops::Mode::C08),
         "c09" => blockprops::main(&opts, blockprops::Mode::C09),
         "c10" => blockprops::main(&opts, blockprops::Mode::C10),
+        "c11" => kernels::main(&opts),
         "c12" => blockprops::main(&opts, blockprops::Mode::C12),
         other => {
             eprintln!("unknown subcommand {other}");
